@@ -266,11 +266,11 @@ def parse_fs(v, response):
             return None
         second, i = r
     if not response:
-        return action, first, second
+        return (action, first, second) if i == len(v) else None     # surplus octets: declared length != content
     if action * 16 + st not in STATUS:
         return None
     r = parse_lv(v, i)
-    if r is None:
+    if r is None or r[1] != len(v):
         return None
     return action, action * 16 + st, first, second, r[0]
 
@@ -470,6 +470,12 @@ def streams(tier, rng):
         for l in (0, 1, 2, len(val) - 1, len(val) + 1, 255):
             cases.append((1024, [[0, l] + val])); cases.append((1027, [[1, l] + val + [1, 9]]))
         cases.append((1024, [[0, len(val)] + val[:1]])); cases.append((1027, [[1, len(val)] + val]))
+    for a in ACTIONS:        # surplus octets inside the declared value of a filestore TLV
+        for extra in ([9], [9, 9], [0], lv_bytes([65])):
+            val = fs_value(a, 0, rname(rng, 2), rname(rng, 1))
+            cases.append((1024, [tlv_bytes(0, val + extra)])); cases.append((1025, [[0], val + extra]))
+            val = fs_value(a, rstatus(rng, a) & 15, rname(rng, 2), rname(rng, 1), rbytes(rng, 1))
+            cases.append((1027, [tlv_bytes(1, val + extra)])); cases.append((1028, [[1], val + extra]))
     for t in TLV_TYPES:
         cases.append((UNPACK_OP[t], [[t, 0]])); cases.append((FROM_OP[t], [[t], []])); cases.append((UNPACK_OP[t], [[]]))
         cases.append((UNPACK_OP[t], [[t]]))
